@@ -73,6 +73,11 @@ func init() {
 				c.ruleLookupTables(cfg)
 				c.ruleScalarMultLoops(cfg)
 				c.ruleVarTimeLoops(cfg)
+				// … all of which read the field operations as arithmetic in GF(p): that they are, for every
+				// representation a Point's coordinates can reach (the limb invariant and the congruences of C09)
+				if res := c.ruleLimbInvariant(cfg); res != nil && len(res.problems) == 0 {
+					c.ruleCongruences(cfg, res.box)
+				}
 			}
 		},
 	})
